@@ -25,6 +25,7 @@ var (
 	flagNoEv   = flag.Bool("no-evidence", false, "do not write evidence/out files (used for scratch trees)")
 	flagCHA    = flag.Bool("cha", false, "use the CHA call graph")
 	flagReplay = flag.String("replay", "", "print a violation record and re-run its rule")
+	flagCat    = flag.Bool("catalogue", false, "print the rule catalogue as a markdown table (rule, properties, obligations on the current tree, doc)")
 )
 
 func main() {
@@ -59,6 +60,31 @@ func main() {
 			os.Exit(2)
 		}
 	}()
+
+	if *flagCat {
+		c := Load(*flagRepo, Config{Name: "default"}, nil)
+		known := loadKnown(filepath.Join(*flagVerif, "known_findings.json"))
+		rs := append([]*Rule{}, registry...)
+		sort.Slice(rs, func(i, j int) bool { return rs[i].Name < rs[j].Name })
+		fmt.Println("| rule | properties | obligations (discharged / justified / known finding) | what it decides |")
+		fmt.Println("|---|---|---|---|")
+		for _, r := range rs {
+			o := applyKnown(r.Run(c), known)
+			d, j, f := 0, 0, 0
+			for _, x := range o {
+				switch x.State {
+				case Discharged:
+					d++
+				case Justified:
+					j++
+				case Finding:
+					f++
+				}
+			}
+			fmt.Printf("| %s | %s | %d (%d / %d / %d) | %s |\n", r.Name, strings.Join(r.Props, " "), len(o), d, j, f, r.Doc)
+		}
+		return
+	}
 
 	if *flagAll {
 		c := Load(*flagRepo, Config{Name: "default"}, nil)
